@@ -886,7 +886,7 @@ func (e *lsEnv) step(c lsCmd, which string, history []string) lsStepResult {
 					vfOracleFail("sync:discovered-set-differs", "the repositories sync -f works on are not those found by an independent walk for .git / bare *.git", rp(map[string]any{"got": got, "want": exp}))
 				}
 			}
-			if !dup && !rootErr && forceErr == nil {
+			if !dup && !rootErr && (fsx == 0 || fsx == 5) { // also when some repositories failed to index: the others converge
 				// exactly one up-to-date repository per discovered spec, nothing else
 				want := map[string]lsSpec{}
 				for _, s := range specs {
@@ -902,7 +902,7 @@ func (e *lsEnv) step(c lsCmd, which string, history []string) lsStepResult {
 						vfOracleFail("sync:extra-repository-after-success", "the index holds a repository that was not discovered", rp(map[string]any{"file": sh.file, "repo": sh.repo}))
 					case normalizeSourceOracle(sh.source) != s.source:
 						vfOracleFail("sync:wrong-source-after-success", "a shard of a discovered name points at another source", rp(map[string]any{"file": sh.file, "source": sh.source, "want": s.source}))
-					case sh.fp != fpMap[s.source]:
+					case fpMap[s.source] != 0 && sh.fp != fpMap[s.source]:
 						vfOracleFail("sync:stale-shard-after-success", "a shard of a discovered repository is not up to date after sync -f", rp(map[string]any{"file": sh.file, "fp": sh.fpstr}))
 					case sh.key != sh.repo:
 						vfOracleFail("sync:shard-file-name-mismatch", "shard file name does not belong to the repository it holds", rp(map[string]any{"file": sh.file, "repo": sh.repo}))
@@ -914,8 +914,8 @@ func (e *lsEnv) step(c lsCmd, which string, history []string) lsStepResult {
 						seen0[sh.repo] = true
 					}
 				}
-				for n := range want {
-					if !seen0[n] {
+				for n, sp := range want {
+					if !seen0[n] && fpMap[sp.source] != 0 {
 						vfOracleFail("sync:missing-repository-after-success", "a discovered repository has no shard after a successful sync -f", rp(map[string]any{"name": n}))
 					}
 				}
@@ -927,7 +927,10 @@ func (e *lsEnv) step(c lsCmd, which string, history []string) lsStepResult {
 					}
 				}
 				// a second forced run has nothing to do (converged)
-				again, err2 := e.exec(c, false)
+				again, err2 := "", error(nil)
+				if fsx == 0 {
+					again, err2 = e.exec(c, false)
+				}
 				for _, l := range e.parseOut(again) {
 					if l.kind == "would-remove" || l.kind == "would-index" {
 						vfOracleFail("sync:not-converged", "a preview right after a successful sync -f still announces work", rp(map[string]any{"preview": again, "err": fmt.Sprint(err2)}))
